@@ -187,9 +187,19 @@ def handle (sess : Session) (line : String) : Session × String :=
     let (e, r) := Gen.genExpr ⟨seed.toNat!⟩ depth.toNat!
     let (src, _) := Gen.renderTokens (Spec.render e) r
     (sess, s!"x{hexOfStr src} {encNode ⟨.rootNode, [Spec.toTree e]⟩}")
+  | ["gen.c02loose", seed, depth] =>
+    -- the everyday spelling: prefix operators unparenthesised as right operand of `^` (Spec/AstLoose)
+    let (e0, r) := Gen.genExpr ⟨seed.toNat!⟩ depth.toNat!
+    -- make the loose rule fire often: wrap as `e0 ^ -…`
+    let (k, r) := r.below 4
+    let e : Spec.Expr := if k == 0 then e0 else
+      .bin .exp (.var cl!"p") (if k == 1 then .neg e0 else if k == 2 then .not (.neg e0) else .neg (.call cl!"f" e0))
+    let (src, _) := Gen.renderTokens (Spec.renderL e false) r
+    (sess, s!"x{hexOfStr src} {encNode ⟨.rootNode, [Spec.toTreeL e false]⟩}")
   | ["gen.c02sys", idx] =>
     let e := Gen.sysExpr idx.toNat!
-    let (src, _) := Gen.renderTokens (Spec.render e) ⟨idx.toNat! + 17⟩
+    -- systematic cases are written with single spaces, so that a replay is readable
+    let src := Spec.renderFrom ((Spec.render e).map fun t => ([Spec.Sep.ws ' '], Gen.ptok t)) []
     (sess, s!"x{hexOfStr src} {encNode ⟨.rootNode, [Spec.toTree e]⟩}")
   | ["gen.c05", seed, depth] =>
     let (l, r) := Gen.genOperand.genLevel ⟨seed.toNat!⟩ depth.toNat!
